@@ -355,6 +355,28 @@ def eval_case(ctx, case):
         ctx.check(ok, "observation-metadata-of-another-sensor" if r is not None else "observation-without-metadata",
                   f"an observation of sensor {sid} reached a filter update with noise covariance diag {None if r is None else np.diag(r).tolist()}, its sensor states {np.diag(want_r.get(sid, np.zeros((1, 1)))).tolist()}",
                   wit, mon="obs_metadata")
+    # ---- the importer interface refuses every mutating call (and the refusal leaves the file alone) -------------
+    try:
+        from resonaate.data.agent import AgentModel
+        from resonaate.data.importer_database import ImporterDatabase
+        from sqlalchemy.orm import Query
+
+        idb = ImporterDatabase(ipath if "://" in ipath else "sqlite:///" + ipath)
+        try:
+            for nm, call in (("insertData", lambda: idb.insertData(AgentModel(unique_id=777777, name="x"))),
+                             ("bulkSave", lambda: idb.bulkSave([AgentModel(unique_id=777778, name="y")])),
+                             ("deleteData", lambda: idb.deleteData(Query(AgentModel)))):
+                try:
+                    call()
+                    refused = False
+                except NotImplementedError:
+                    refused = True
+                ctx.check(refused, "importer-accepts-" + nm, f"ImporterDatabase.{nm} did not refuse (the importer database is documented read-only)", wit, mon="importer_refuses_writes")
+        finally:
+            idb.engine.dispose()
+    except Exception as e:  # noqa: BLE001
+        ctx.count("importer_interface_probe_failed")
+        ctx.note("importer_interface_probe_error", f"{type(e).__name__}: {str(e)[:200]}")
     # ---- importer untouched ---------------------------------------------------------------------
     after = file_state(ipath)
     ctx.check(after[1] == before[1], "importer-content-modified", "logical content of the importer database changed during the run", wit, mon="importer_unmodified")
